@@ -109,15 +109,18 @@ def check_module(m, res, d, label):
                 else:
                     res['expect'].append(('lineno', inp, e, o, 'reported line differs from the line the generator wrote the prompt on'))
             # every part against the text of the file
-            known_ps1 = set()
-            for (_cn, _d, _b, s) in m.stmts:
-                known_ps1.add(s.first_line)
+            ignored = set(m.ignored_lines)
             for e in exs:
                 for p in e._parts:
                     if isinstance(p, str):
                         continue
                     c07._cnt(res, 'part-line')
                     n = e.lineno + p.line_offset
+                    if n in ignored and e.block_type is None:
+                        res['expect'].append(('part-line', {'kind': 'module-lineno', 'source': src, 'style': style,
+                                                            'what': 'part of %s:%d at offset %d' % (e.callname, e.num, p.line_offset), 'label': label},
+                                              'no part from a disabled section', {'line': n, 'text': file_line(flines, n)},
+                                              'a prompt under a DisableDoctest:/Script:/Ignore:... header is part of the freeform doctest'))
                     fl = file_line(flines, n)
                     first = p.orig_lines[0] if p.orig_lines else None
                     ok = fl is not None and first is not None and fl.strip() == first.strip() and fl.strip().startswith('>>>')
@@ -157,6 +160,23 @@ def run_failure(m, res, path, flines, style, label):
     if e is None:
         res['expect'].append(('failure', inp, 'a doctest holding the failing statement', None, 'the doctest with the injected failure was not collected'))
         return
+    # a doctest that passes reports no failing line
+    other = [x for x in exs if x is not e and x.callname != f['callname']][:1]
+    for x in other:
+        x.mode = 'native'
+        try:
+            with cc.quiet():
+                s2 = x.run(on_error='return', verbose=0)
+        except BaseException as ex:  # noqa
+            continue
+        try:
+            got2 = (x.failed_line_offset(), x.failed_lineno())
+        except Exception as ex:
+            got2 = 'raise:' + type(ex).__name__
+        c07._cnt(res, 'passing')
+        if s2.get('passed') and got2 != (None, None):
+            res['expect'].append(('failure', dict(inp, callname=x.callname, fail_kind='none'), [None, None], got2,
+                                  'a passing doctest reports a failing line'))
     e.mode = 'native'
     try:
         with cc.quiet():
